@@ -419,6 +419,21 @@ fn generate(rng: &mut Rng, tier: Tier, cases: &mut Vec<Case>) {
         let c = cell_of(&g, &cs, &ids, axis, b, bound, rng);
         push_case(cases, "small-bound", c);
     }
+    // (4b) large cells: more than 4096 / 8192 nodes (sizes at which sorting or selection strategies, buffer
+    //      growth and batching typically switch), whole grid in scrambled id order, every axis
+    for (w, h) in [(80usize, 64usize), (130, 70)] {
+        if tier == Tier::Quick && w * h > 6000 {
+            continue;
+        }
+        let g = grid(rng, w, h, 6, 6, false);
+        for axis in 0..4 {
+            let cs = coords_for(rng, &g, true, axis);
+            let mut ids: Vec<usize> = (0..w * h).collect();
+            rng.shuffle(&mut ids);
+            let c = cell_of(&g, &cs, &ids, axis, 0.25, BIG, rng);
+            push_case(cases, "large", c);
+        }
+    }
     // (5) tied keys: plain (y, x) coordinates; only the structural clauses are judged
     for _ in 0..30 * scale {
         let w = 3 + rng.below(8) as usize;
